@@ -380,6 +380,15 @@ sx_parse_(const char *s, const size_t n, const size_t i)
 struct sx_parse_result
 sx_parse(const char *s, const size_t n, const size_t i)
 {
+    /* A closing parenthesis does not start an expression. */
+    const size_t j = skip_ws(s, n, i);
+    if ((j < n) && (s[j] == ')')) {
+        struct sx_parse_result err = SX_PARSE_RESULT_INIT;
+        err.status = SXS_UNKNOWN_INPUT;
+        err.position = j;
+        return err;
+    }
+
     struct sx_parse_result rv = sx_parse_(s, n, i);
     if (result_is_error(&rv)) {
         sx_destroy(&rv.node);
